@@ -109,6 +109,31 @@ def _is_ns(c):
     return bool(getattr(c, "nanosecond", 0))
 
 
+DEST_CELLS = ["setup  run_7", "a\tb", "  a b  ", "a \t b", " a  b ", "x  x", "a\u00a0b c", "\ta b\u2003", "a   b", "a b ",
+              "your_farm  my_farm", "a\u2003b", "d1 d2 d1", " \t all"]
+
+
+def nasty_header(rng, grid, info, kinds):
+    """destination cells with doubled blanks, tabs, other whitespace between / around the names (the reader's rule:
+    strip, then split at single blanks — empty names included); column names differing only in letter case"""
+    if len(grid) > 1 and rng.random() < 0.3:
+        grid[1] = [rng.choice(DEST_CELLS)] + list(grid[1][1:])
+        kinds.append("nasty destinations")
+    n_col = len(info["kinds"])
+    if n_col >= 2 and rng.random() < 0.25:
+        pos = [(2, 0), (3, 0)] if info["transposed"] else [(2, 0), (2, 1)]
+        (r0, c0), (r1, c1) = pos
+        if r1 < len(grid) and c1 < len(grid[r1]) and isinstance(grid[r0][c0], str):
+            base = grid[r0][c0].strip(c08.SPACES)
+            pair = rng.choice(c08.CASE_PAIRS + [(base, c08.case_variant(base))] * 3)
+            others = {str(grid[2 + j][0]).strip(c08.SPACES) for j in range(2, n_col)} if info["transposed"] else \
+                {str(c).strip(c08.SPACES) for c in grid[2][2:n_col]}
+            if pair[0] != pair[1] and pair[1] and not (set(pair) & others) and not any(starts_block(x) for x in pair):
+                grid[r0][c0], grid[r1][c1] = pair
+                kinds.append("names differing only in case")
+    return grid
+
+
 def gen_stream(rng, native):
     """-> rows, tables [(start_row, n_rows, name)], element kinds"""
     rows, tables, kinds = [], [], []
@@ -136,6 +161,7 @@ def gen_stream(rng, native):
             grid, info = c02.wf_grid(rng, native)
             grid = segment_safe(rng, grid, info)
             grid = c08.inject_ns(rng, grid, info, native)
+            grid = nasty_header(rng, grid, info, kinds)
             if any(k == "datetime" for k in info["kinds"]):
                 kinds.append("ns datetime" if any(_is_ns(c) for r in grid[2:] for c in r) else "us datetime")
             name = grid[0][0][2:]
@@ -447,6 +473,16 @@ def oracle(out, case, api, sheets, tables, filt_py, results):
             out.fail(f"{api}: a cellgrid table is not the raw rows of its block", dict(case, table=name),
                      {"origin": origin, "cellgrid": grid_to_json(vc)}, {"origin": start, "rows": grid_to_json(raw)}, key="cellgrid_raw")
             return
+        # the destinations of both forms are what the reader's rule gives for the destination cell: strip, then split
+        # at single blanks (an empty name between two blanks included)
+        dcell = raw[1][0] if len(raw) > 1 and len(raw[1]) > 0 else None
+        if isinstance(dcell, str):
+            want = set(dcell.strip().split(" "))
+            got = {"pdtable": set(vp.metadata.destinations), "jsondata": set(vj.get("destinations", {}))}
+            if got["pdtable"] != want or got["jsondata"] != want:
+                out.fail(f"{api}: the destinations of a table are not those of its destination cell", dict(case, table=name),
+                         {k: sorted(v) for k, v in got.items()}, sorted(want), key="destinations")
+                return
         # the units are those of the header rows, whatever fixer configuration the reader was given
         if units is not None and (list(vp.units) != list(units) or
                                   [c["unit"] for c in vj["columns"].values()] != list(units)):
@@ -600,7 +636,8 @@ def run(tier, seed, model_ok, translator, search=False):
     out = Outcome()
     out.rule = ("multi-block inputs: well-formed tables of every column kind (text and native cells, markers, missing values, datetimes down to "
                 "nanoseconds (a column with one such value is held as datetime64[ns]), "
-                "both orientations, zero rows, no columns at all (name and destination rows only), padding, comments after the names) interleaved with metadata, directives, "
+                "both orientations, zero rows, no columns at all (name and destination rows only), destination cells with doubled blanks / tabs / other "
+                "whitespace, column names differing only in letter case, padding, comments after the names) interleaved with metadata, directives, "
                 "template rows, comments, late `key:` rows and blank lines with payload, with and without blank separators, "
                 "25 % with a read filter; 40 % with the reader's fixer argument given (a ParseFixer subclass or an instance of it, "
                 "strict_types False / True x stop_on_errors 0 / 1; the units must be those of the header rows); the three readers of a case are consumed one after the other (30 %), in lock-step (40 %) "
